@@ -44,13 +44,14 @@ std::string Hist::freshName(const char* prefix, const std::vector<std::string>& 
     static const char alpha[] = "abcdefghijklmnopqrstuvwxyzABCDEFGHIJKLMNOPQRSTUVWXYZ0123456789_:#.-";
     for (int tries = 0; tries < 200; ++tries) {
         std::ostringstream s;
-        int style = rng.range(0, 11);
+        int style = rng.range(0, 12);
         int n = rng.range(0, 40);
         if (style < 5) s << prefix << n;
         else if (style == 5) s << (char)tolower(prefix[0]) << "x:" << n << "_mk";
         else if (style == 6) s << prefix << " " << n << " b";           // embedded blank
         else if (style == 7) s << prefix << std::string((size_t)rng.range(8, 28), 'q') << n;
         else if (style == 8) s << "L" << prefix << n << "#";
+        else if (style == 12) s << prefix << n << "\t\r\n\v\f"[rng.below(5)];   // ends in white space that is not a blank: part of the name (only blanks are padding)
         else { s << prefix; int k = rng.range(2, 14); for (int i = 0; i < k; ++i) s << alpha[rng.below(sizeof alpha - 1)]; }   // any letter in either case, digits, punctuation
         std::string c = s.str(); bool clash = false;
         for (size_t i = 0; i < taken.size(); ++i) if (upperS(taken[i]) == upperS(c)) { clash = true; break; }
